@@ -186,7 +186,7 @@ class Verifier(Engine):
         if isinstance(coll.ty, MapTy):
             return V(self.pre.mapf(coll.ty, "store")(coll.t, self.coerce(key, coll.ty.key).t, self.coerce(v, coll.ty.val).t), coll.ty)
         if isinstance(coll.ty, SeqTy):
-            i = self.norm_index(coll, self.coerce(key, INT).t)
+            i = self.norm_index(coll, self.coerce(key, INT).t, st)
             self.check(st, z3.And(0 <= i, i < self.seq_len(coll)), "IndexError", "list assignment index")
             return V(self.pre.seqf(coll.ty, "upd")(coll.t, i, self.coerce(v, coll.ty.elem).t), coll.ty)
         raise Unsupported(f"item assignment on {coll.ty}", n)
@@ -390,6 +390,8 @@ class Verifier(Engine):
         n = self.seq_len(itv)
         st.env[idxname] = V(z3.IntVal(0), INT)
         # 1. invariants hold on entry
+        for h in spec.hints_entry:
+            self.hint(st, h, f"{tag}.hint_entry")
         for lab, txt in spec.invariants.items():
             self.emit(st, self.clause(txt, st), f"{tag}.inv.{lab}.entry", text=txt)
         # 2. arbitrary iteration
@@ -409,7 +411,7 @@ class Verifier(Engine):
         ex.pc.append(i == n)
         ex.path = st.path + [tag + "X"]
         for h in spec.hints_after:
-            self.prove_then_assume(ex, self.clause(h, ex), f"{tag}.hint_after", text=h)
+            self.hint(ex, h, f"{tag}.hint_after")
         # 2b. body
         bd = it.fork()
         bd.pc.append(i < n)
@@ -418,7 +420,7 @@ class Verifier(Engine):
         for k2, v2 in self.bind_loop_target(s.target, elem, idx_mode, i).items():
             bd.env[k2] = v2
         for h in spec.hints_begin:
-            self.prove_then_assume(bd, self.clause(h, bd), f"{tag}.hint_begin", text=h)
+            self.hint(bd, h, f"{tag}.hint_begin")
         pre_iter = bd.snapshot()
         after: list[Outcome] = [Outcome("normal", ex)]
         for o in self.block(s.body, bd):
@@ -430,7 +432,7 @@ class Verifier(Engine):
                         e2.env["$pre_" + nm] = pre_iter.env[nm]
                 e2.env[idxname] = V(i + 1, INT)
                 for h in spec.hints_end:
-                    self.prove_then_assume(e2, self.clause(h, e2), f"{tag}.hint", text=h)
+                    self.hint(e2, h, f"{tag}.hint")
                 for lab, txt in spec.invariants.items():
                     self.emit(e2, self.clause(txt, e2), f"{tag}.inv.{lab}.step", text=txt)
             elif o.kind == "break":
@@ -673,7 +675,7 @@ class Verifier(Engine):
             sym = self.pure_app(c, {p: pre.env[p] for p, _ in params}, rty)
             post.pc.append(sym.t == res.t)
         for h in c.hints:
-            self.prove_then_assume(post, self.clause(h, post), "hint", text=h)
+            self.hint(post, h, "hint")
         for exc, txt in c.raises.items():
             pst = post.fork()
             pst.env = dict(pre.env)
@@ -683,11 +685,52 @@ class Verifier(Engine):
             self.emit(post, self.clause(txt, post), f"ensures.{lab}", text=txt)
         self.emit(post, z3.BoolVal(False), "cover", kind="cover")
 
+    def hint(self, st: State, text: str, label: str) -> None:
+        """A hint is either a fact (proved here, then assumed) or `use lemma(args)`:
+        an explicit instance of a lemma proved elsewhere - its `requires` are
+        obligations at this point, its `ensures` instance is assumed."""
+        t = text.strip()
+        if not t.startswith("use "):
+            self.prove_then_assume(st, self.clause(t, st), label, text=t)
+            return
+        call = ast.parse(t[4:].strip(), mode="eval").body
+        if not (isinstance(call, ast.Call) and isinstance(call.func, ast.Name) and call.func.id in self.lemma_defs):
+            raise ContractError(f"`{t}`: not a call of a known lemma")
+        lem = self.lemma_defs[call.func.id]
+        names = list(lem.forall)
+        if len(call.args) != len(names):
+            raise ContractError(f"`{t}`: lemma {lem.name} takes {len(names)} arguments")
+        saved = self.mode_spec
+        self.mode_spec = True
+        try:
+            st2 = st.fork()
+            st2.old = st.old
+            vals = [self.coerce(self.expr(a, st2), self.tenv.parse(lem.forall[nm])) for a, nm in zip(call.args, names)]
+        finally:
+            self.mode_spec = saved
+        inst = State()
+        inst.env = dict(zip(names, vals))
+        inst.heap = dict(st.heap)
+        inst.pc = st.pc
+        if getattr(self, "cur_lemma", None) is lem:
+            # recursive use inside the lemma's own proof: the measure must decrease (well-founded induction)
+            mtxt = lem.measure or (f"len({lem.induction})" if lem.induction else "")
+            if not mtxt:
+                raise ContractError(f"`{t}`: recursive use of lemma {lem.name} needs `induction` or `measure`")
+            m_inst = self.term(mtxt, inst).t
+            m_cur = self.term(mtxt, self.cur_lemma_state).t
+            self.emit(st, z3.And(0 <= m_inst, m_inst < m_cur), f"{label}.use:{lem.name}.decreases", text=f"{mtxt} decreases")
+        for r in lem.requires:
+            self.emit(st, self.clause(r, inst), f"{label}.use:{lem.name}.requires", text=r)
+        self.assume(st, self.clause(lem.ensures, inst))
+
     # ==================================================================== lemmas
     def prove_lemma(self, lem: Lemma) -> None:
+        self.lemma_defs[lem.name] = lem
         """Emit the VCs of a lemma (optionally by induction) and register it as an axiom."""
         self.cur_func = f"lemma:{lem.name}"
         self.cur_contract = None
+        self.cur_hide = list(lem.hide)
         self.cur_inputs = {}
         st = State()
         bvs = []
@@ -698,6 +741,8 @@ class Verifier(Engine):
             st.env[nm] = V(c, ty)
             bvs.append(c)
             tys[nm] = ty
+        self.cur_lemma = lem
+        self.cur_lemma_state = st.fork()
         reqs = [self.clause(r, st) for r in lem.requires]
         goal = self.clause(lem.ensures, st)
         stmt = z3.Implies(z3.And(*reqs), goal) if reqs else goal
@@ -710,13 +755,17 @@ class Verifier(Engine):
         qgoal = self.clause(lem.ensures, qst)
         qbody = z3.Implies(z3.And(*qreqs), qgoal) if qreqs else qgoal
         pats = []
-        for tr in lem.triggers:
-            node = ast.parse(tr, mode="eval").body
-            if isinstance(node, ast.Tuple):
-                terms = [self.term(ast.unparse(e), qst).t for e in node.elts]
-                pats.append(z3.MultiPattern(*terms))
-            else:
-                pats.append(self.term(tr, qst).t)
+        self.trigger_mode = True
+        try:
+            for tr in lem.triggers:
+                node = ast.parse(tr, mode="eval").body
+                if isinstance(node, ast.Tuple):
+                    terms = [self.term(ast.unparse(e), qst).t for e in node.elts]
+                    pats.append(z3.MultiPattern(*terms))
+                else:
+                    pats.append(self.term(tr, qst).t)
+        finally:
+            self.trigger_mode = False
         axiom = z3.ForAll(qvs, qbody, patterns=pats) if pats else z3.ForAll(qvs, qbody)
         if not lem.trusted:
             st.pc += reqs
@@ -736,18 +785,23 @@ class Verifier(Engine):
                     s2.pc.append(cf)
                     s2.path = [f"case{ci}"]
                     for h in lem.hints:
-                        self.prove_then_assume(s2, self.clause(h, s2), "hint", text=h)
+                        self.hint(s2, h, "hint")
                     self.emit(s2, goal, "ensures", text=lem.ensures)
             else:
                 for h in lem.hints:
-                    self.prove_then_assume(st, self.clause(h, st), "hint", text=h)
+                    self.hint(st, h, "hint")
                 self.emit(st, goal, "ensures", text=lem.ensures)
             self.emit(st, z3.BoolVal(False), "cover", kind="cover")
         else:
             self.trusted_used.add(f"lemma {lem.name} (assumed)")
-        self.lemma_axioms.append((f"lemma.{lem.name}", axiom))
+        self.cur_hide = None
+        self.cur_lemma = None
+        if lem.explicit:
+            return  # instantiated only through `use lemma(args)` hints
+        self.lemma_axioms.append((f"lemma.{lem.name}", T.name_quantifier(axiom, f"lemma.{lem.name}")))
 
     sources: dict[str, tuple[str, ast.Module]] = {}
+    lemma_defs: dict[str, Lemma] = {}
     local_types: dict[str, Ty] = {}
     param_names: set[str] = set()
     mutated_params_ok: set[str] = set()
